@@ -70,6 +70,16 @@ if spec.get('run'):
     stats = flipjump.run(Path(spec['out']), print_time=False, print_termination=False)   # io_device defaults to StandardIO
     sys.stdout.flush()
     sys.stderr.write('FJVERIF-TERMINATION ' + json.dumps({'cause': str(stats.termination_cause), 'ops': stats.op_counter}) + '\n')
+    # the API's own one-step call (temporary .fjm), with an in-memory device fed the same input
+    from flipjump.interpreter.io_devices.FixedIO import FixedIO
+    dev = FixedIO(bytes.fromhex(spec.get('stdin_hex', '')))
+    kw.pop('debugging_file_path', None)
+    import contextlib, io
+    with contextlib.redirect_stdout(io.StringIO()):
+        stats2 = flipjump.assemble_and_run([Path(p) for p in spec['files']], warning_as_errors=bool(spec.get('werror')), print_time=False,
+                                           print_termination=False, io_device=dev, **kw)
+    sys.stderr.write('FJVERIF-ONESTEP ' + json.dumps({'cause': str(stats2.termination_cause), 'ops': stats2.op_counter,
+                                                       'out': dev.get_output(allow_incomplete_output=True).hex()}) + '\n')
 '''
 
 
@@ -350,6 +360,7 @@ class Judge:
                 'debug': str(dbg_c) if opts['debug'] else None, 'run': runnable}
         if runnable:
             spec['prelude'] = str(self.prelude_fjm())
+            spec['stdin_hex'] = stdin.hex()
         rc_c, so_c, se_c = self.api(spec, d, stdin)
         self.count('monitor_evaluations')
 
@@ -404,6 +415,19 @@ class Judge:
             for line in se_c.decode('latin-1').splitlines():
                 if line.startswith('FJVERIF-TERMINATION '):
                     api_term = json.loads(line[len('FJVERIF-TERMINATION '):])
+            one_step = None
+            for line in se_c.decode('latin-1').splitlines():
+                if line.startswith('FJVERIF-ONESTEP '):
+                    one_step = json.loads(line[len('FJVERIF-ONESTEP '):])
+            if one_step is None:
+                self.count('api_one_step_not_reported')
+            else:
+                self.count('api_one_step_runs_compared')
+                if bytes.fromhex(one_step['out']) != so_r:
+                    self.bad('program-output-differs-between-routes/api-assemble_and_run',
+                             f'{case["program"]} {opts}: assemble_and_run output {bytes.fromhex(one_step["out"])[:60]!r} vs fj {so_r[:60]!r}', case)
+                if term is not None and (term[0], term[1]) != (one_step['cause'], one_step['ops']):
+                    self.bad('termination-differs-between-routes/api-assemble_and_run', f'{case["program"]}: CLI {term} vs assemble_and_run {one_step}', case)
             if term is None or api_term is None:
                 self.count('termination_not_parsed')
             elif (term[0], term[1]) != (api_term['cause'], api_term['ops']):
